@@ -9,6 +9,7 @@ Spec oracle (on the implementation's output only, independent of the model): the
 cells is computed from the script; neighbour sets, counts, border flags, event-maintained data, heap
 membership, tops-as-minima and the component partition (union-find) are recomputed from the definition.
 """
+import collections
 import concurrent.futures
 import itertools
 import os
@@ -17,7 +18,7 @@ import re
 from lib import core
 
 DRIVER = "drv_grid"
-LEAN_TARGETS = ["OmplModel.Props.C13", DRIVER]
+LEAN_TARGETS = ["OmplModel.Props.C13", DRIVER, "drv_discretization"]
 CMPS = ["less", "greater", "div4", "mod16"]
 EVS = ["none", "lo", "hi"]
 FAR = 1 << 30
@@ -611,6 +612,479 @@ def oracle(script, out, stats=None):
     return None
 
 
+# ================================================================================== engine 2: Discretization
+DISC_DRIVER = "drv_discretization"
+EPS = 2.220446049250313e-16
+
+
+class MT19937:
+    """std::mt19937 seeded by seed(value) -- an independent re-implementation for the oracle (the model side uses
+    the Lean RNG model of C20)."""
+
+    def __init__(self, seed):
+        mt = [0] * 624
+        mt[0] = seed & 0xFFFFFFFF
+        for i in range(1, 624):
+            mt[i] = (1812433253 * (mt[i - 1] ^ (mt[i - 1] >> 30)) + i) & 0xFFFFFFFF
+        self.mt, self.i = mt, 624
+
+    def next(self):
+        mt = self.mt
+        if self.i >= 624:
+            for k in range(624):
+                y = (mt[k] & 0x80000000) | (mt[(k + 1) % 624] & 0x7FFFFFFF)
+                mt[k] = mt[(k + 397) % 624] ^ (y >> 1) ^ (0x9908B0DF if y & 1 else 0)
+            self.i = 0
+        y = mt[self.i]
+        self.i += 1
+        y ^= y >> 11
+        y ^= (y << 7) & 0x9D2C5680
+        y ^= (y << 15) & 0xEFC60000
+        y ^= y >> 18
+        return y & 0xFFFFFFFF
+
+
+def uniform01_after_seed(seed):
+    """rng_.setLocalSeed(seed); rng_.uniform01(): generate_canonical<double,53> over a 32-bit engine."""
+    g = MT19937(seed)
+    a = g.next()
+    b = g.next()
+    r = (float(a) + float(b) * 4294967296.0) / 18446744073709551616.0
+    return r if r < 1.0 else 1.0 - 2.0 ** -53
+
+
+class DGen:
+    def __init__(self, rng, dim=None):
+        self.rng = rng
+        self.dim = rng.choice([0, 1, 1, 2, 2, 2, 3]) if dim is None else dim
+        self.lines = ["disc dim=%d" % self.dim]
+        self.span = rng.choice([1, 1, 2, 3])
+        self.coord_of = {}     # motion -> coordinate (all motions ever created)
+        self.live = []         # hint
+        self.next = 0
+
+    def cs(self, x):
+        return " ".join(map(str, x))
+
+    def coord(self):
+        r = self.rng
+        if self.live and r.chance(1, 4):
+            x = list(self.coord_of[r.choice(self.live)])
+            if self.dim and r.chance(1, 2):
+                x[r.below(self.dim)] += r.choice([-1, 1])
+            return tuple(x)
+        return tuple(r.range(-self.span, self.span) for _ in range(self.dim))
+
+    def add(self, x=None):
+        r = self.rng
+        x = self.coord() if x is None else tuple(x)
+        par = -1 if (self.next == 0 or r.chance(1, 4)) else r.below(self.next)
+        dist = r.choice([0.0, 1.0, r.unit() * 10, r.unit() * 1e-3, 1e6 * r.unit()])
+        self.lines.append(("add %d %s %s" % (par, self.cs(x), core.f2bits(dist))).replace("  ", " "))
+        self.coord_of[self.next] = x
+        self.live.append(self.next)
+        self.next += 1
+
+    def sel(self):
+        self.lines.append("sel %d" % self.rng.below(1 << 31))
+
+    def score(self):
+        r = self.rng
+        x = self.coord_of[r.choice(self.live)] if self.live and not r.chance(1, 10) else self.coord()
+        s = r.choice([r.unit(), r.unit() * 5, 1e-300, 0.0, 1e-17, 3.0, r.unit() * 1e-12])
+        self.lines.append(("score %s %s" % (self.cs(x), core.f2bits(s))).replace("  ", " "))
+
+    def rm(self):
+        r = self.rng
+        if self.live and not r.chance(1, 10):
+            m = r.choice(self.live)
+        else:
+            m = r.below(self.next + 2)
+        x = self.coord_of.get(m, self.coord())
+        if r.chance(1, 8):
+            x = self.coord()
+        self.lines.append(("rm %d %s" % (m, self.cs(x))).rstrip())
+        if m in self.live and x == self.coord_of.get(m):
+            self.live.remove(m)
+
+    def other(self):
+        r = self.rng
+        k = r.below(10)
+        if k < 4:
+            self.lines.append("iter")
+        elif k < 6:
+            self.lines.append("bf " + core.f2bits(r.choice([0.5, 0.9, 1.0, 0.05, r.unit(), 1.5, 0.0, 1e-17])))
+        elif k < 8:
+            self.lines.append("pd")
+        elif k < 9:
+            self.lines.append("clear")
+            self.live = []
+        else:
+            self.lines.append(r.choice(["add 0", "sel", "rm 0", "score 1", "bf x", "sel -3"]))
+
+
+def gen_disc(rng, nops):
+    g = DGen(rng)
+    for _ in range(nops):
+        r = rng.below(100)
+        if r < 42 or not g.live:
+            g.add()
+        elif r < 64:
+            g.sel()
+        elif r < 72:
+            g.score()
+        elif r < 92:
+            g.rm()
+        else:
+            g.other()
+    g.lines += ["sel 1", "pd"]
+    return g.lines
+
+
+def gen_disc_churn(rng):
+    """a KPIECE-like loop: count an iteration, select, add a motion near the selected cell's neighbourhood, re-score
+    the cell (good/bad factor), occasionally remove motions until cells empty (BKPIECE-style) -- many border/interior
+    migrations with importances that depend on the neighbour count."""
+    g = DGen(rng, dim=rng.choice([1, 2, 2, 3]))
+    g.span = 1 if g.dim > 1 else 3
+    for _ in range(rng.range(3, 8)):
+        g.add()
+    for _ in range(rng.range(20, 70)):
+        g.lines.append("iter")
+        g.sel()
+        g.add()
+        if rng.chance(2, 3):
+            g.score()
+        if rng.chance(1, 3):
+            for _ in range(rng.range(1, 4)):
+                g.rm()
+        if not g.live:
+            g.add()
+    g.lines += ["pd", "sel 11"]
+    return g.lines
+
+
+def parse_ddump(s):
+    sec = s.split(" | ")
+    if len(sec) != 3:
+        raise ValueError("dump has %d sections" % len(sec))
+    kv = dict(p.split("=", 1) for p in sec[0].split())
+    t = sec[1].split()
+    n = int(t[0][2:])
+    cells = {}
+    for tok in t[1:]:
+        f = tok.split(":")
+        if len(f) != 10 or f[0] == "?":
+            raise ValueError("bad cell row %r" % tok)
+        cid, xs, nb, b, ms, cov, sel, sc, it, imp = f
+        cells[int(cid)] = {"x": tuple(map(int, xs.split(","))) if xs != "-" else (), "nbrs": int(nb), "border": b == "1",
+                           "motions": [] if ms == "-" else list(map(int, ms.split(","))), "cov": core.bits2f(cov),
+                           "sel": int(sel), "score": core.bits2f(sc), "iter": int(it), "imp": core.bits2f(imp)}
+    if len(cells) != n:
+        raise ValueError("size() = %d but %d cells listed" % (n, len(cells)))
+    kq = dict(p.split("=", 1) for p in sec[2].split())
+    ids = lambda v: [] if v == "-" else [int(z) if z != "?" else -1 for z in v.split(",")]
+    return {"size": int(kv["size"]), "iter": int(kv["iter"]), "bf": core.bits2f(kv["bf"]), "tbl": int(kv["tbl"]),
+            "cells": cells, "I": ids(kq["I"]), "E": ids(kq["E"])}
+
+
+def disc_well_formed(t, dim):
+    isint = lambda z: re.fullmatch(r"[+-]?\d+", z) is not None
+    isnat = lambda z: z.isdigit()
+    op = t[0]
+    if op == "add":
+        return len(t) == dim + 3 and isint(t[1]) and all(isint(z) for z in t[2:2 + dim]) and isnat(t[-1])
+    if op == "sel":
+        return len(t) == 2 and isnat(t[1])
+    if op == "score":
+        return len(t) == dim + 2 and all(isint(z) for z in t[1:1 + dim]) and isnat(t[-1])
+    if op == "rm":
+        return len(t) == dim + 2 and isnat(t[1]) and all(isint(z) for z in t[2:])
+    if op == "bf":
+        return len(t) == 2 and isnat(t[1])
+    if op in ("iter", "clear", "pd"):
+        return len(t) == 1
+    return False
+
+
+def disc_oracle(script, out, stats=None):
+    """motion/cell bookkeeping of the property, evaluated on the implementation's output only."""
+    dim = int(script[0].split("=")[1])
+    limit = 2 * dim
+    live = {}          # motion -> coordinate, in insertion order (dicts keep it)
+    parent = {}
+    nxt = 0
+    iteration = 1
+    bf = 0.9
+    meta = {}          # coordinate -> dict(cov, sel, iter) expected for the cell currently at that coordinate
+    prev = None
+    for i, line in enumerate(script[1:]):
+        if i >= len(out):
+            return (i, "implementation stopped at `%s` (crash or sanitizer report)" % line)
+        o = out[i]
+        t = line.split()
+        if not disc_well_formed(t, dim) or (t[0] == "add" and not (-1 <= int(t[1]) < nxt)):
+            if o != "bad-op":
+                return (i, "ill-formed line answered %r" % o)
+            continue
+        if o == "bad-op":
+            return (i, "bad-op on a well-formed line")
+        res, _, dump = o.partition(" | ")
+        try:
+            D = parse_ddump(dump)
+        except Exception as e:   # noqa
+            return (i, "unreadable state dump: %s" % e)
+        op = t[0]
+        exp = None
+        touched = None     # coordinate of the cell whose importance must be fresh after this op
+        bumped = False
+        selx = None
+        if op == "add":
+            x = tuple(map(int, t[2:2 + dim]))
+            created = 0 if x in live.values() else 1
+            live[nxt] = x
+            parent[nxt] = int(t[1])
+            exp = "m=%d created=%d" % (nxt, created)
+            if created:
+                meta[x] = {"cov": 1.0, "sel": 1, "iter": iteration}
+            else:
+                meta[x]["cov"] += 1.0
+            nxt += 1
+            touched = x
+        elif op == "rm":
+            m = int(t[1])
+            x = tuple(map(int, t[2:]))
+            if m not in live:
+                exp = "dead"
+            elif live[m] == x:
+                del live[m]
+                exp = "1"
+                if x not in live.values():
+                    meta.pop(x, None)
+            else:
+                exp = "0"
+        elif op == "score":
+            x = tuple(map(int, t[1:1 + dim]))
+            exp = "ok" if x in live.values() else "absent"
+            if exp == "ok":
+                touched = x
+        elif op == "iter":
+            iteration += 1
+            exp = "ok"
+        elif op == "bf":
+            b = core.bits2f(t[1])
+            if b < EPS or b > 1.0 or b != b:
+                exp = "err" if b == b else None
+            else:
+                exp = "ok"
+                bf = b
+        elif op == "clear":
+            live, meta, iteration = {}, {}, 1
+            exp = "ok"
+        elif op == "pd":
+            ms = list(live)
+            verts = set(ms) | {parent[m] for m in ms if parent[m] >= 0}
+            exp = "v=%d e=%d r=%d" % (len(verts), sum(1 for m in ms if parent[m] >= 0), sum(1 for m in ms if parent[m] < 0))
+        elif op == "sel":
+            if not live:
+                exp = "none"
+            else:
+                mo = re.fullmatch(r"m=(\d+) x=(\S+)", res)
+                if not mo:
+                    return (i, "selectMotion answered %r although %d motions are stored" % (res, len(live)))
+                m = int(mo.group(1))
+                x = tuple(map(int, mo.group(2).split(","))) if mo.group(2) != "-" else ()
+                if m not in live:
+                    return (i, "selectMotion returned motion %d, which was %s" % (m, "removed" if m < nxt else "never added"))
+                if live[m] != x:
+                    return (i, "selectMotion returned motion %d with cell %s, its coordinate is %s" % (m, x, live[m]))
+                meta[x]["sel"] += 1
+                selx = x
+                # which queue was asked, and was the answer a best cell of it?  (state before the call = prev)
+                if prev is not None:
+                    pc = prev["cells"]
+                    ce, ci = len(prev["E"]), len(prev["I"])
+                    frac = 0.0 if ce == 0 else float(ce) / float(ce + ci)
+                    u = uniform01_after_seed(int(t[1]))
+                    want_ext = u < max(bf, frac)
+                    first, second = (prev["E"], prev["I"]) if want_ext else (prev["I"], prev["E"])
+                    pool = first if first else second
+                    if stats is not None:
+                        stats["sel:external" if want_ext else "sel:internal"] += 1
+                        if not first:
+                            stats["sel:top-of-empty-side(F3 shape)"] += 1
+                    sid = [c for c, v in pc.items() if v["x"] == x]
+                    if not sid or sid[0] not in pool:
+                        return (i, "selectMotion (uniform01=%.6f, borderFraction=%g, fracExternal=%g) must take the top of the %s "
+                                   "queue %s, it returned a motion of cell %s" % (u, bf, frac, "external" if (pool is prev["E"]) else "internal",
+                                                                                   pool, sid))
+                    for c in pool:
+                        if pc[c]["imp"] > pc[sid[0]]["imp"]:
+                            return (i, "selectMotion took cell %d (importance %g) although cell %d of the same queue has importance %g"
+                                    % (sid[0], pc[sid[0]]["imp"], c, pc[c]["imp"]))
+                    bumped = pc[sid[0]]["score"] < EPS
+                    if bumped and stats is not None:
+                        stats["sel:score-repair(updateAll)"] += 1
+        if exp is not None and res != exp:
+            return (i, "`%s` answered %r, the motion bookkeeping says %r" % (line, res, exp))
+        # ---- every motion added and not removed sits in exactly one cell, the cell of its coordinate; no empty cell
+        want = {}
+        for m, x in live.items():
+            want.setdefault(x, []).append(m)
+        got = {}
+        for cid, c in D["cells"].items():
+            if c["x"] in got:
+                return (i, "two cells at coordinate %s" % (c["x"],))
+            got[c["x"]] = c["motions"]
+        if got != want:
+            empt = [x for x, ms in got.items() if not ms]
+            if empt:
+                return (i, "an empty cell stays in the grid at %s" % (empt[0],))
+            return (i, "cells hold %s, the motions added and not removed are %s" % (sorted(got.items()), sorted(want.items())))
+        if D["size"] != len(live) or D["iter"] != iteration or D["bf"] != bf or D["tbl"] != len(got):
+            return (i, "size_=%d iteration_=%d borderFraction=%g, expected %d %d %g" % (D["size"], D["iter"], D["bf"], len(live), iteration, bf))
+        # ---- grid invariants of C13 and the CellData counters
+        for cid, c in D["cells"].items():
+            x = c["x"]
+            cnt = sum(1 for y in nb_coords(x) if y in got)
+            if c["nbrs"] != cnt or c["border"] != (cnt < limit):
+                return (i, "cell %d at %s: neighbors=%d border=%s, definition gives %d and %s" % (cid, x, c["nbrs"], c["border"], cnt, cnt < limit))
+            mt = meta[x]
+            if c["cov"] != mt["cov"] or c["sel"] != mt["sel"] or c["iter"] != mt["iter"]:
+                return (i, "cell %d at %s: coverage=%g selections=%d iteration=%d, expected %g %d %d"
+                        % (cid, x, c["cov"], c["sel"], c["iter"], mt["cov"], mt["sel"], mt["iter"]))
+            # importance = computeImportance at the last event; only `selections` may have moved on since
+            ok = False
+            if x == touched:
+                sels = [c["sel"]]
+            elif bumped:       # updateAll() ran inside selectMotion, before `++selections` of the selected cell
+                sels = [c["sel"] - 1] if x == selx else [c["sel"]]
+            else:
+                sels = range(c["sel"], 0, -1)
+            for s_ in sels:
+                den = (float(cnt + 1) * c["cov"]) * float(s_)
+                val = c["score"] / den if den != 0.0 else None
+                if val is not None and (val == c["imp"] or (val != val and c["imp"] != c["imp"])):
+                    ok = True
+                    break
+            if not ok:
+                return (i, "cell %d at %s: importance %r is not score/((neighbors+1)*coverage*selections) = %r/((%d+1)*%g*s) for %s"
+                        % (cid, x, c["imp"], c["score"], cnt, c["cov"],
+                           "s = %d (the cell was just updated)" % c["sel"] if len(list(sels)) == 1 else "any s <= %d" % c["sel"]))
+        I, E = D["I"], D["E"]
+        if sorted(I + E) != sorted(D["cells"]) or len(set(I + E)) != len(I + E):
+            return (i, "queues hold %s / %s, cells are %s" % (I, E, sorted(D["cells"])))
+        for cid in E:
+            if not D["cells"][cid]["border"]:
+                return (i, "interior cell %d sits in the external queue" % cid)
+        for cid in I:
+            if D["cells"][cid]["border"]:
+                return (i, "border cell %d sits in the internal queue" % cid)
+        for name, arr in (("internal", I), ("external", E)):
+            for cid in arr:
+                if D["cells"][cid]["imp"] > D["cells"][arr[0]]["imp"]:
+                    return (i, "%s queue: cell %d (importance %g) is at the top although cell %d (importance %g) is better"
+                            % (name, arr[0], D["cells"][arr[0]]["imp"], cid, D["cells"][cid]["imp"]))
+        if dim >= 1 and D["cells"] and not E:
+            return (i, "no border cell although the grid has no bounds (external queue empty)")
+        prev = D
+    return None
+
+
+def build_disc(ck):
+    return ck.build_harness("discretization", ["discretization.cpp"], link_ompl=True, extra=HARNESS_EXTRA)
+
+
+def run_disc(ck, hbin, script):
+    impl, rc, err, model = ck.run_pair(hbin, DISC_DRIVER, script)
+    return impl or [], rc, err or "", model
+
+
+def judge_disc(ck, hbin, script, tag, pre=None):
+    impl, rc, err, model = pre if pre is not None else run_disc(ck, hbin, script)
+    ck.traces_validated += 1
+    stats = collections.Counter()
+    fail = disc_oracle(script, impl, stats)
+    nsel = sum(1 for l in script[1:] if l.startswith("sel "))
+    nrm = sum(1 for l, o in zip(script[1:], impl) if l.startswith("rm ") and o.startswith("1 "))
+    ck.case(("disc",) + tuple(script), nsel >= 3 and nrm >= 2)
+    ck.count("disc:scripts:" + tag)
+    ck.count("disc:ops", len(script) - 1)
+    ck.count("disc:dim:%s" % script[0].split("=")[1])
+    for k, v in stats.items():
+        ck.count("disc:" + k, v)
+    for ln, o in zip(script[1:], impl):
+        ck.count("disc:op:" + ln.split()[0])
+        if o == "bad-op":
+            ck.count("disc:adversarial:malformed-line")
+    ck.sample({"generator": "disc:" + tag, "script": script[:8] + (["…(%d more lines)" % (len(script) - 8)] if len(script) > 8 else [])}, limit=9)
+    if rc != 0 and fail is None:
+        fail = (len(impl), "harness exited with code %s: %s" % (rc, crash_site(err)))
+    d = ck.first_diff(impl, model)
+    if fail is None and d is not None:
+        # targeted search: continue from the disagreeing prefix with selections and removals of what was selected
+        r = ck.rng.fork("dsearch%d" % ck.traces_validated)
+        budget = ck.__dict__.setdefault("_c13_dsearch", [6 if ck.tier == "quick" else 30])
+        if budget[0] > 0:
+            budget[0] -= 1
+            for attempt in range(24):
+                g = DGen(r, dim=int(script[0].split("=")[1]))
+                cont = []
+                for _ in range(r.range(5, 40)):
+                    z = r.below(10)
+                    cont.append("sel %d" % r.below(1 << 31) if z < 5 else ("iter" if z < 6 else "add -1 %s %s" % (g.cs(g.coord()), core.f2bits(r.unit()))))
+                s2 = script[:d + 2] + [c.replace("  ", " ") for c in cont]
+                impl2, rc2, err2, model2 = run_disc(ck, hbin, s2)
+                ck.count("disc:search:continuations-tried")
+                f2 = disc_oracle(s2, impl2)
+                if f2 is not None or rc2 != 0:
+                    script, impl, rc, err, model = s2, impl2, rc2, err2, model2
+                    fail = f2 or (len(impl2), "harness exited with code %s: %s" % (rc2, crash_site(err2)))
+                    break
+    if fail is not None:
+        sig = ("disc", re.sub(r"-?\d+(\.\d+)?(e-?\d+)?", "N", fail[1])[:60], crash_site(err) if rc != 0 else None)
+        seen = ck.__dict__.setdefault("_c13_sigs", set())
+        if sig in seen:
+            ck.count("failing-scripts:same-kind-as-reported")
+            return None
+        seen.add(sig)
+
+        def still(lines):
+            s_ = [script[0]] + lines
+            o, r_, e_, _m = run_disc(ck, hbin, s_)
+            return disc_oracle(s_, o) is not None or r_ != 0
+        small = [script[0]] + core.ddmin(script[1:], still)
+        o, r_, e_, m = run_disc(ck, hbin, small)
+        f = disc_oracle(small, o)
+        what = f[1] if f else fail[1]
+        ck.report({"engine": "discretization", "what": re.sub(r"\d+", "N", what)[:160], "crash": crash_site(e_) if r_ != 0 else None},
+                  script=small, expected=m, observed=o + ([("stderr: " + crash_site(e_))] if r_ != 0 else []), engine="discretization")
+        ck.log("property failure (Discretization): %s (script of %d ops after shrinking)" % (what, len(small) - 1))
+        return False
+    if d is not None:
+        ck.disagreements += 1
+        dop = "disc:" + (script[d + 1].split()[0] if d + 1 < len(script) else "?")
+        seen = ck.__dict__.setdefault("_c13_dis", set())
+        if dop in seen:
+            ck.count("disagreeing-scripts:same-op-as-reported")
+            return None
+        seen.add(dop)
+
+        def still(lines):
+            s_ = [script[0]] + lines
+            o, r_, e_, m = run_disc(ck, hbin, s_)
+            return ck.first_diff(o, m) is not None
+        small = [script[0]] + core.ddmin(script[1:], still)
+        o, r_, e_, m = run_disc(ck, hbin, small)
+        ck.report({"engine": "discretization", "what": "model/implementation disagreement"}, script=small, expected=m, observed=o,
+                  found_input=False, engine="discretization",
+                  obligation="correspondence discretization: Discretization.h vs OmplModel.Model.Discretization (first differing line %s)"
+                             % ck.first_diff(o, m))
+        ck.log("Discretization: correspondence disagreement at line %d; no property failure found by the continuation search" % d)
+        return False
+    return True
+
+
 # ---------------------------------------------------------------------------------- the check
 HARNESS_EXTRA = ["-isystem", "/usr/include/eigen3"]
 
@@ -805,6 +1279,7 @@ def corpus():
 
 def setup(ck):
     build(ck)
+    build_disc(ck)
 
 
 EXH_CFGS = [
@@ -832,12 +1307,21 @@ def run(ck):
                        "the ordering functors are strict weak orders; the update event is a function of (data, neighbors)",
                        "topInternal()/topExternal() on an empty grid are outside the contract and not called"]
     ck.lean_build(LEAN_TARGETS)
-    ck.audit(roots=["Drv.Grid"])
+    ck.audit(roots=["Drv.Grid", "Drv.Discretization"])
     if ck.tier == "thorough" and ck.lean_ok:
         ck.leanchecker(["OmplModel.Props.C13"])
     hbin = build(ck)
+    dbin = build_disc(ck)
     quick = ck.tier == "quick"
-    jobs = [(name, script, "corpus", 1) for name, script in corpus()]
+    allcorpus = corpus()
+    jobs = [(name, script, "corpus", 1) for name, script in allcorpus if not script[0].startswith("disc")]
+    djobs = [(name, script, "corpus") for name, script in allcorpus if script[0].startswith("disc")]
+    ndisc, nchurn = (140, 60) if quick else (1500, 600)
+    for i in range(ndisc):
+        r = ck.rng.fork("disc%d" % i)
+        djobs.append(("disc%d" % i, gen_disc(r, r.choice([15, 40, 100, 200])), "random"))
+    for i in range(nchurn):
+        djobs.append(("churn%d" % i, gen_disc_churn(ck.rng.fork("churn%d" % i)), "kpiece-like-churn"))
     nrand, nflip, ndense, nbulk = (220, 90, 60, 160) if quick else (2500, 900, 500, 2500)
     for i in range(nbulk):
         jobs.append(("bulk%d" % i, gen_bulk_rekey(ck.rng.fork("bulk%d" % i)), "bulk-rekey", 1))
@@ -867,10 +1351,43 @@ def run(ck):
                     break
                 if judge(ck, hbin, script, tag, pre, k) is False:
                     bad += 1
+        # ---- engine 2: the real Discretization<Motion> against its model
+        bad = 0
+        for a in range(0, len(djobs), chunk):
+            if bad >= 3:
+                break
+            part = djobs[a:a + chunk]
+            pres = list(ex.map(lambda j: run_disc(ck, dbin, j[1]), part))
+            for (name, script, tag), pre in zip(part, pres):
+                if bad >= 3:
+                    break
+                if judge_disc(ck, dbin, script, tag, pre) is False:
+                    bad += 1
     return 0
 
 
 def replay(ck, data):
+    if data["script"][0].startswith("disc"):
+        hbin = build_disc(ck)
+        ck.lean_build([DISC_DRIVER])
+        script = data["script"]
+        impl, rc, err, model = run_disc(ck, hbin, script)
+        fail = disc_oracle(script, impl)
+        d = ck.first_diff(impl, model)
+        for i, ln in enumerate(script[1:]):
+            print("%-28s impl:  %s" % (ln, impl[i] if i < len(impl) else "<missing>"))
+            if i < len(model) and (i >= len(impl) or impl[i] != model[i]):
+                print("%-28s model: %s" % ("", model[i]))
+        if rc != 0:
+            print("harness exit code %s: %s" % (rc, crash_site(err)))
+        if fail:
+            print("PROPERTY FAILS at op %d: %s" % fail)
+            return 1
+        if rc != 0 or d is not None:
+            print("model and implementation disagree at line %s" % d)
+            return 1
+        print("no failure on the current tree")
+        return 0
     hbin = build(ck)
     ck.lean_build([DRIVER])
     script = data["script"]
